@@ -388,7 +388,7 @@ def jobs(tier):
             out.append(('surgery', 'case_surgery', dict(
                 model=mod, comp=comp, var=var, direct=direct), FACADE))
     gen = []
-    for ns in ((1, 2) if q else (1, 2, 3)):
+    for ns in ((1, 2) if q else (1, 2, 3, 4)):
         for states in itertools.permutations(c09.STATE_IDS[:ns]):
             gen.append(dict(states=list(states), n_const=2, n_inter=1))
     for spec in gen:
@@ -415,7 +415,7 @@ BOUNDS = dict(
           'measurement} for the first individual, block / interleaved / '
           'reversed row order, string and integer IDs, with and without a '
           'duration column',
-    thorough='generated models with up to 3 states in every declaration '
+    thorough='generated models with up to 4 states in every declaration '
              'order; every triple of dataset row kinds',
     outside='the integrator: "receives drug at rate dose/duration" is decided '
             'for what chi hands to the solver (protocol + equations), under '
